@@ -72,3 +72,15 @@ def _g22(case, v):
 
 
 rule("C07", "SingleAnnotatorWrapper", None, "inner strategy needs unlabelled candidates and some candidate sample already carries a label")(_g22)
+
+
+# ---- SingleAnnotatorWrapper offers candidate samples that have no available annotator to the wrapped strategy (C07, G24)
+def _g24(case, v):
+    return isinstance(case, dict) and case.get("candidate_without_annotator")
+
+
+rule("C07", "SingleAnnotatorWrapper", "fewer-annotators-than-requested", "some candidate sample has no available annotator")(_g24)
+
+
+# kind-specific rule first: RULES is scanned in order
+RULES.insert(0, RULES.pop(next(i for i, r in enumerate(RULES) if r[3] == "some candidate sample has no available annotator")))
